@@ -44,7 +44,12 @@ Inductive input :=
 | ICreate (ps : list posting) (ts : option Z) (ref : str) (md : meta) (amd : list (addr * meta)) (force : bool)
 | IRevert (id : Z) (force : bool) (at_eff : bool) (rmeta : meta)
 | ISetMeta (t : target) (md : meta)
-| IDelMeta (t : target) (k : str).
+| IDelMeta (t : target) (k : str)
+(* a create whose Numscript also calls set_tx_meta (smd) / set_account_meta (samd); md / amd are what the request
+   carries beside the script (CreateTransaction.Metadata / AccountMetadata). The input is the request AS SUBMITTED:
+   the metadata the script computes is not part of it. *)
+| IScript (ps : list posting) (ts : option Z) (ref : str) (md : meta) (amd : list (addr * meta)) (force : bool)
+          (smd : meta) (samd : list (addr * meta)).
 
 Record op := { o_in : input; o_ik : str; o_dry : bool }.
 
@@ -74,7 +79,8 @@ Definition init_state : state :=
      s_next_tx := 1; s_next_log := 1; s_next_seq := 1 |}.
 
 Inductive err :=
-| EInsufficientFunds | EReferenceConflict | EIdempotencyInput | EAlreadyReverted | ENotFound | ENoPostings.
+| EInsufficientFunds | EReferenceConflict | EIdempotencyInput | EAlreadyReverted | ENotFound | ENoPostings
+| EMetadataOverride.
 
 Inductive result :=
 | ROk (log_id : Z) (tx_id : option Z) (hit : bool)
